@@ -41,6 +41,11 @@ from . import _n_word_max
 #%% 
 def array_support(func):
     def iterator(*args, **kwargs):
+        if len(args) > 1 and isinstance(args[1], np.ndarray) and args[1].ndim > 0:
+            # two array operands are paired element by element (broadcast like NumPy arrays)
+            a, b = np.broadcast_arrays(np.asarray(args[0]), args[1])
+            vals = [func(u, v, *args[2:], **kwargs) for u, v in zip(a.flatten().tolist(), b.flatten().tolist())]
+            return (np.array(vals + [None], dtype=object)[:-1] if has_big_int(vals) else np.array(vals)).reshape(a.shape)
         if isinstance(args[0], (list, np.ndarray)) and np.asarray(args[0]).ndim > 0:
             vals = []
             for v in args[0]:
